@@ -32,7 +32,7 @@ def unhex(x):
     return bytes.fromhex(x[1:]).decode('latin-1') if x.startswith('S') else x
 
 
-def run_impl(text):
+def run_impl(text, charset=None):
     """-> (verdict string, recorded handler calls, ack text)"""
     import pyx12.error_handler
     import pyx12.params
